@@ -1,10 +1,106 @@
-/- Driver for `kind = "c02"` (and `"c02:…"`) cases. -/
+/- Driver for `kind = "c02"` cases: runs a write history on the provenance model (Model/Provenance.lean) with the toy
+   primitives and reports, after every step, what an out-of-band reader of the tables can see: rows per table with
+   the length of every stored column, which tag values are in the clear, how many secret columns are in the clear. -/
 import Driver.Common
+import Driver.Store
+import AskarModel.Model.Provenance
+import AskarModel.Model.Like
 
-open Lean
+open Lean Askar Askar.Wql Askar.Provenance
 
 namespace Driver.C02
 
-def runCase (_j : Json) : Json := jerr "not implemented"
+def parseMethod (s : String) : Method :=
+  if s == "raw" then .raw
+  else if s == "none" then .none
+  else .kdf ((s.splitOn ":").drop 2 |> String.intercalate ":")
+
+def parseOp (j : Json) : Option Provenance.Op :=
+  let p := str! j "profile"
+  let k := (natOpt j "k").getD 2
+  match str! j "op" with
+  | "insert" => some (.update p k true (str! j "c") (str! j "n") (hex! j "v") (Driver.Store.parseTags j "t"))
+  | "replace" => some (.update p k false (str! j "c") (str! j "n") (hex! j "v") (Driver.Store.parseTags j "t"))
+  | "remove" => some (.remove p k (str! j "c") (str! j "n"))
+  | "remove_all" => some (.removeAll p (natOpt j "k") (strOpt j "c") (Driver.Store.filterOpt j "f"))
+  | "fetch" => some (.fetch p k (str! j "c") (str! j "n"))
+  | "count" => some (.count p (natOpt j "k") (strOpt j "c") (Driver.Store.filterOpt j "f"))
+  | "scan" => some (.scan p (natOpt j "k") (strOpt j "c") (Driver.Store.filterOpt j "f"))
+  | "insert_key" =>
+    some (.insertKey p (str! j "n") (strOpt j "meta") (utf8 (str! j "jwk")) (str! j "alg") ((arr! j "thumbs").map asStr)
+      (Driver.Store.parseTags j "t"))
+  | "create_profile" => some (.createProfile (str! j "name"))
+  | "remove_profile" => some (.removeProfile (str! j "name"))
+  | "set_default" => some (.setDefault (str! j "name"))
+  | "rekey" => some (.rekey (parseMethod (str! j "method")))
+  | "copy" => some (.copy (parseMethod (str! j "method")))
+  | "checkpoint" => some .checkpoint
+  | "reopen" => some .reopen
+  | _ => none
+
+def jout : Provenance.Out → Json
+  | .ok => .str "ok"
+  | .err e => jerr e.name
+  | .n k => Json.mkObj [("n", jnat k)]
+  | .found b => Json.mkObj [("found", .bool b)]
+  | .removed b => Json.mkObj [("removed", .bool b)]
+
+def strOfBytes (b : Bytes) : String := (String.fromUTF8? (ByteArray.mk b.toArray)).getD ""
+
+/-- lexicographic order on (text, numbers), as Rust's derived tuple order on (String, ints…) -/
+def keyLt (a b : Bytes × List Nat) : Bool :=
+  if a.1 != b.1 then Bytes.lt a.1 b.1
+  else
+    let rec go : List Nat → List Nat → Bool
+      | [], [] => false
+      | [], _ => true
+      | _, [] => false
+      | x :: xs, y :: ys => if x < y then true else if y < x then false else go xs ys
+    go a.2 b.2
+
+def bnat (b : Bool) : Nat := if b then 1 else 0
+
+def dump (s : PStore) : Json :=
+  let db := s.db
+  let keyRef := match db.config.find? (·.1 == "key") with
+    | some (_, a) => ((strOfBytes a.bytes).splitOn "?").headD ""
+    | none => ""
+  let pname := fun (pid : Nat) => match db.profiles.find? (·.id == pid) with | some p => p.name.bytes | none => []
+  let itemProfile := fun (itemId : Nat) => match db.items.find? (·.id == itemId) with | some it => pname it.pid | none => []
+  let profiles := Driver.Store.sortBy keyLt (db.profiles.map fun p => (p.name.bytes, [p.key.bytes.length]))
+  let items := Driver.Store.sortBy keyLt (db.items.map fun it =>
+    (pname it.pid, [it.kind, it.cat.bytes.length, it.name.bytes.length, it.value.bytes.length]))
+  let tags := Driver.Store.sortBy keyLt (db.tags.map fun t =>
+    (itemProfile t.itemId, [t.name.bytes.length, t.value.bytes.length, bnat t.plain, bnat (t.value.prov == .plainTagValue)]))
+  let secretCols :=
+    (db.items.map fun it => bnat it.cat.prov.isSecretPlain + bnat it.name.prov.isSecretPlain + bnat it.value.prov.isSecretPlain).foldl (· + ·) 0 +
+    (db.tags.map fun t => bnat t.name.prov.isSecretPlain + bnat (!t.plain && !t.value.prov.isCipher)).foldl (· + ·) 0
+  Json.mkObj [
+    ("key", .str keyRef),
+    ("profiles", .arr (profiles.map fun (n, l) => Json.arr #[.str (strOfBytes n), jnat (l.headD 0)]).toArray),
+    ("items", .arr (items.map fun (n, l) => Json.arr (#[Json.str (strOfBytes n)] ++ (l.map jnat).toArray)).toArray),
+    ("tags", .arr (tags.map fun (n, l) =>
+      match l with
+      | [a, b, c, d] => Json.arr #[.str (strOfBytes n), jnat a, jnat b, jnat c, .bool (d == 1)]
+      | _ => .null).toArray),
+    ("clear_secret", jnat secretCols)]
+
+def dumpStep (res : Json) (st : St) : Json :=
+  Json.mkObj [("res", res), ("main", dump st.main), ("copy", match st.copy with | some c => dump c | none => .null)]
+
+def runOps (st : St) : List Json → List Json → St × List Json
+  | [], acc => (st, acc.reverse)
+  | j :: js, acc =>
+    match parseOp j with
+    | none => runOps st js (dumpStep (jerr "unknown-op") st :: acc)
+    | some op =>
+      let (st', o) := step Crypto.toy toyNonce sqliteLike st op
+      runOps st' js (dumpStep (jout o) st' :: acc)
+
+def runCase (j : Json) : Json :=
+  let st0 := init Crypto.toy toyNonce (parseMethod (str! j "method")) (str! j "profile")
+  let (st, steps) := runOps st0 (arr! j "ops") [dumpStep (.str "ok") st0]
+  Json.mkObj [("steps", .arr steps.toArray),
+    ("closed", Json.mkObj [("main", dump st.main), ("copy", match st.copy with | some c => dump c | none => .null)])]
 
 end Driver.C02
